@@ -7,6 +7,7 @@ import (
 	estakingtypes "github.com/elys-network/elys/x/estaking/types"
 	mastercheftypes "github.com/elys-network/elys/x/masterchef/types"
 	stablestaketypes "github.com/elys-network/elys/x/stablestake/types"
+	tokenomicstypes "github.com/elys-network/elys/x/tokenomics/types"
 )
 
 // CommitAgent: commitment / vesting / staking / reward-claim users.
@@ -91,6 +92,10 @@ func (a *CommitAgent) Step(s *Sim) {
 			amt := logUniform(r, 1e3, 1e8)
 			s.SendTx(u, "commit/unstake", &commitmenttypes.MsgUnstake{Creator: u.Addr.String(), Amount: amt, Asset: asset, ValidatorAddress: s.W.ValAddr.String()})
 		default:
+			if s.Cfg.Genesis.Airdrops && r.IntN(12) == 0 {
+				s.SendTx(u, "commit/claim_airdrop", &tokenomicstypes.MsgClaimAirdrop{Sender: u.Addr.String()})
+				break
+			}
 			switch r.IntN(3) {
 			case 0:
 				var ids []uint64
